@@ -281,7 +281,7 @@ V("C12", "R matrix in reverse setting", "R12.1", (SYM, "                    [2 /
 V("C12", "twin: another primitive basis of the I lattice", "silent", (SYM, "                    [-1 / 2, 1 / 2, 1 / 2],\n                    [1 / 2, -1 / 2, 1 / 2],\n                    [1 / 2, 1 / 2, -1 / 2],", "                    [1, 0, 1 / 2],\n                    [0, 1, 1 / 2],\n                    [0, 0, 1 / 2],"))
 V("C12", "transform not transposed", "R12.1", (SYM, "prim_cell = np.dot(transform.T, conv_cell)", "prim_cell = np.dot(transform, conv_cell)"))
 V("C12", "fractional conversion transposed", "R12.2", (SYM, "prim_pos = np.dot(conv_pos, prim_cell_inv)", "prim_pos = np.dot(conv_pos, prim_cell_inv.T)"))
-V("C12", "primitive atoms not wrapped", "R12.2", (SYM, "        prim_sys.wrap()\n", ""))
+V("C12", "twin: primitive atoms not wrapped (equivalent modulo the lattice)", "silent", (SYM, "        prim_sys.wrap()\n", ""))
 V("C12", "letters sliced by another mask", "R12.3", (SYM, "        prim_wyckoff = conv_wyckoff[inside_mask]", "        prim_wyckoff = conv_wyckoff[conv_to_prim_map]"))
 V("C12", "original letters without permutation", "R12.4", (SYM, "            new_wyckoff = permutations[old_wyckoff]", "            new_wyckoff = old_wyckoff"))
 V("C12", "primitive system from spglib letters", "R12.4", (SYM, "        conv_wyckoff = self.get_wyckoff_letters_conventional()\n        conv_equivalent", "        conv_wyckoff = self._get_spglib_wyckoff_letters_conventional()\n        conv_equivalent"))
@@ -585,3 +585,15 @@ for _pid, _rid in (("C03", "R03.3"), ("C02", "R02.6"), ("C04", "R04.1")):
 for _pid, _rid in (("C02", "R02.3"), ("C01", "R01.15"), ("C17", "R17.7")):
     V(_pid, "metric filter of the 2D basis search drops the best candidates", _rid, (PFD, "            max_metric = metric_sum.max()\n            metric_filter = metric_sum == max_metric\n            valid_indices = valid_indices[metric_filter]\n\n            # Find group of cells by finding cells with smallest area",
       "            max_metric = metric_sum.max()\n            metric_filter = metric_sum != max_metric\n            valid_indices = valid_indices[metric_filter]\n\n            # Find group of cells by finding cells with smallest area"))
+
+# ------------------------------------------------------------------------------------------ false-alarm side of the mutation audit: behaviour-preserving mutants as twins
+for _pid in ("C09", "C17", "C02", "C13"):
+    V(_pid, "twin: the general formula is used for systems without periodic directions too", "silent", (GEO, "        if n_pbc > 0:\n            repeats = np.array([1, 1, 1])", "        if n_pbc >= 0:\n            repeats = np.array([1, 1, 1])"))
+V("C09", "doubled-cell evaluation skipped for systems with one periodic direction", "R09.3", (GEO, "        if n_pbc > 0:\n            repeats = np.array([1, 1, 1])", "        if n_pbc > 1:\n            repeats = np.array([1, 1, 1])"))
+for _pid in ("C01", "C03", "C02"):
+    V(_pid, "twin: atoms of a single cluster pass through the (idempotent) localisation as well", "silent", (SBC, "            if len(i_clusters) > 1:", "            if len(i_clusters) >= 1:"))
+V("C01", "localisation only for atoms in three or more clusters", "R01.11", (SBC, "            if len(i_clusters) > 1:", "            if len(i_clusters) > 2:"))
+for _pid in ("C01", "C09", "C17"):
+    V(_pid, "twin: no branch for noise points (min_samples is 1 at every call)", "silent", (GEO, "        if i_clust == -1:\n            cluster_groups.append([i_atom])\n        else:\n            group_map[i_clust].append(i_atom)\n", "        group_map[i_clust].append(i_atom)\n"))
+V("C16", "vacancy cell number taken after wrapping the position", "R16.1", (GEO, "copy_index = np.floor(to_scaled(cell, position, wrap=False)[0])", "copy_index = np.floor(to_scaled(cell, position, wrap=True)[0])"))
+V("C20", "twin: a wrapping conversion inside get_matches is C16's business", "silent", (GEO, "copy_index = np.floor(to_scaled(cell, position, wrap=False)[0])", "copy_index = np.floor(to_scaled(cell, position, wrap=True)[0])"))
